@@ -189,6 +189,20 @@ def extract_model(out, obl):
 
 
 def solve_one(obl, timeout_s, want_model=True, extra="", second_opinion=False):
+    """Float32 obligations: cvc5 alone for 60 % of the budget, then z3-new for the rest (cvc5 wins almost always and two
+    bit-blasting processes per obligation only slow each other down on a loaded machine); everything else: parallel portfolio."""
+    if obl["theory"] == "fp" and not second_opinion and timeout_s >= 10:
+        first = _solve_with(obl, timeout_s * 0.6, want_model, extra, False, only=["cvc5"])
+        if first["verdict"] in ("sat", "unsat"):
+            return first
+        second = _solve_with(obl, timeout_s * 0.4, want_model, extra, False, only=["z3-new"])
+        second["seconds"] += first["seconds"]
+        second["log"] = first["log"] + second["log"]
+        return second
+    return _solve_with(obl, timeout_s, want_model, extra, second_opinion)
+
+
+def _solve_with(obl, timeout_s, want_model=True, extra="", second_opinion=False, only=None):
     """Parallel portfolio on one obligation: all solvers start together, the first decisive answer wins.
     Returns dict(verdict, solver, seconds, model, log)."""
     smt = obl["smt"] + extra + "(check-sat)\n"
@@ -196,6 +210,8 @@ def solve_one(obl, timeout_s, want_model=True, extra="", second_opinion=False):
     procs = []
     t0 = time.time()
     for name, cmd in solver_cmds(obl["theory"], timeout_s):
+        if only and name not in only:
+            continue
         f = tempfile.NamedTemporaryFile("w", suffix=".smt2", delete=False)
         if name.startswith("z3"):
             f.write("(set-option :pp.decimal true)\n(set-option :pp.decimal_precision 20)\n")
@@ -329,7 +345,7 @@ def decide_all(obls, tier, workers=16, log=None, models=True, on_sat=None, stop_
                 o.update({"verdict": "unsat", "solver": (rab["solver"] or "") + "(common sub-terms abstracted)", "seconds": o.get("seconds", 0) + rab["seconds"], "model": {}, "solver_log": rab["log"]})
                 return
         quick_fp = None
-        if o["theory"] == "fp" and o.get("smt_real") and on_sat is not None:
+        if o["theory"] == "fp" and on_sat is not None:
             # most Float32 identities of a correct tree are refuted in well under 3 s; only the stubborn ones get candidates
             quick_fp = solve_one(o, 3)
             if quick_fp["verdict"] in ("unsat", "sat"):
@@ -339,9 +355,11 @@ def decide_all(obls, tier, workers=16, log=None, models=True, on_sat=None, stop_
                 return
         if quick_fp is not None:
             # candidate counterexample from the real reading of a Float32 identity (confirmed natively or discarded)
-            alt = {"smt": o["smt_real"], "vars": o["vars_real"], "theory": "real", "kind": "claim"}
-            ex = "".join("(assert (and (<= (- 4.0) %s) (<= %s 4.0)))\n" % (s_, s_) for _, s_ in alt["vars"])
-            ra = solve_one(alt, 10, extra=ex)
+            ra = {"verdict": "none", "model": {}}
+            if o.get("smt_real"):
+                alt = {"smt": o["smt_real"], "vars": o["vars_real"], "theory": "real", "kind": "claim"}
+                ex = "".join("(assert (and (<= (- 4.0) %s) (<= %s 4.0)))\n" % (s_, s_) for _, s_ in alt["vars"])
+                ra = solve_one(alt, 10, extra=ex)
             if ra["verdict"] == "sat" and ra["model"]:
                 saved = (o.get("verdict"), o.get("model"))
                 o["model"] = ra["model"]
